@@ -29,6 +29,11 @@ def src_root(repo: Optional[str] = None) -> str:
 # --------------------------------------------------------------------------
 
 
+# names of the modules whose function / class bodies were read since the last reset (used by the thorough
+# tier to decide which committed variants can possibly change a property's verdict)
+CONSULTED: Set[str] = set()
+
+
 @dataclass
 class Func:
     module: "Module"
@@ -38,6 +43,11 @@ class Func:
     parent: Optional["Func"] = None
     children: Dict[str, "Func"] = field(default_factory=dict)
     local_imports: Dict[str, Tuple[str, Optional[str]]] = field(default_factory=dict)
+
+    def __getattribute__(self, attr):
+        if attr == "node":
+            CONSULTED.add(object.__getattribute__(self, "module").name)
+        return object.__getattribute__(self, attr)
 
     @property
     def name(self) -> str:
@@ -127,6 +137,11 @@ class ClassInfo:
     attrs: Dict[str, ast.expr] = field(default_factory=dict)  # class-level constants
     ann_attrs: Dict[str, ast.AnnAssign] = field(default_factory=dict)
 
+    def __getattribute__(self, attr):
+        if attr in ("node", "attrs", "ann_attrs"):
+            CONSULTED.add(object.__getattribute__(self, "module").name)
+        return object.__getattribute__(self, attr)
+
     @property
     def fq(self) -> str:
         return f"{self.module.name}:{self.name}"
@@ -196,6 +211,7 @@ class Program:
         self.modules: Dict[str, Module] = {}
         self._subclasses: Dict[str, List[ClassInfo]] = {}
         self._load()
+        CONSULTED.clear()
 
     # ---------------------------------------------------------------- load
     def _load(self) -> None:
@@ -413,6 +429,7 @@ class Program:
         full = name if name.startswith(PKG) or name.startswith("dvc_objects") else f"{PKG}.{name}"
         if full not in self.modules:
             raise AnalysisError(f"anchor module vanished: {full}")
+        CONSULTED.add(full)
         return self.modules[full]
 
     def func(self, modname: str, qual: str) -> Func:
